@@ -223,7 +223,7 @@ pub fn c15(cx: &RunCtx) {
             .iter()
             .map(|s| s.to_string())
             .collect();
-        tok_run::<I64>(cx, "E-TOK pair (i64, number) integer alphabet", a, if quick { 4 } else { 5 }, 9, ONLY_DEFAULT, &none, Some(&c15_int_extra), 2400);
+        tok_run::<I64>(cx, "E-TOK pair (i64, number) integer alphabet", a, if quick { 5 } else { 6 }, 9, ONLY_DEFAULT, &none, Some(&c15_int_extra), 2400);
     }
     // (f64, number)
     if cx.wants("f64") || cx.wants("number") {
@@ -232,7 +232,7 @@ pub fn c15(cx: &RunCtx) {
         a.extend(["3", "sqrt(", "floor(", "avg("].iter().map(|s| s.to_string()));
         a.sort();
         a.dedup();
-        tok_run::<F64>(cx, "E-TOK pair (f64, number) shared grammar", a, if quick { 4 } else { 5 }, 9, ONLY_DEFAULT, &none, Some(&c15_f64_extra), 2400);
+        tok_run::<F64>(cx, "E-TOK pair (f64, number) shared grammar", a, if quick { 5 } else { 6 }, 9, ONLY_DEFAULT, &none, Some(&c15_f64_extra), 2400);
         // every function name once, at depth 1 over a small operand list
         let mut st = Stats::default();
         let ops = ["0.5", "2", "3", "0.25", "7", "10", "1", "(-0.5)", "(-2)", "20", "1.5"];
